@@ -328,4 +328,13 @@ MUTANTS = [
          old="        for fut in list(self._uid_to_futures.values()):\n            fut.cancel()\n        self._uid_to_futures.clear()", new="        pass"),
     dict(id='C11-m7', prop='C11', file='mpserver/_servlet.py', desc='SwitchServlet.stop forgets to stop its enqueue thread when it has a single member',
          old="        self._qin.put(None)\n        self._thread_enqueue.join()\n        self._reset()", new="        if len(self._servlets) > 1:\n            self._qin.put(None)\n            self._thread_enqueue.join()\n        self._reset()"),
+    # ---------------- C10
+    dict(id='C10-m2', prop='C10', file='streamer/_tee.py', desc='window head popped one consumer early',
+         old="                if box.n == self.n_forks:", new="                if box.n == max(1, self.n_forks - 1):"),
+    dict(id='C10-m3', prop='C10', file='streamer/_tee.py', desc='re-check under the source lock dropped (double pull)',
+         old="                        if self.next.next is None and self.head.exc is None:", new="                        if self.head.exc is None:"),
+    dict(id='C10-m4', prop='C10', file='streamer/_tee.py', desc='D9 regression: first-element path blocks unconditionally',
+         old="                    if not self.instream_lock.acquire(timeout=0.1):\n                        continue", new="                    self.instream_lock.acquire()"),
+    dict(id='C10-m6', prop='C10', file='streamer/_tee.py', desc='forks other than the failing one end by exhaustion (exception not remembered in prefetch path)',
+         old="                                self.head.exc = e\n                            else:\n                                box = TeeX(x)", new="                                if self._fork_idx == 0:\n                                    self.head.exc = e\n                                else:\n                                    raise\n                            else:\n                                box = TeeX(x)"),
 ]
